@@ -174,7 +174,10 @@ func suiteC01(c *ctx) {
 		cs := genHistory(r, "C01", i, s, i%9 == 0, i%2 == 0)
 		if i%10 == 3 && s.Accelerated() {
 			// token-count limit of a block reached inside a long run
-			n := r.Range(34000, 75000)
+			n := r.Range(34000, 46000)
+			if i%40 == 3 {
+				n = r.Range(66500, 75000) // the assembly packs two literals per token: limit at 65536 literals
+			}
 			cs.Datas[0] = DataSpec{Gen: "tokedge", Seed: r.U64(), N: n}
 			cs.Ops = append(partition(r, n, 0, s, false), Op{K: "c"})
 			if len(cs.Ops) > 40 {
